@@ -370,6 +370,43 @@ class Ctx:
         self.evaluations += len(lines)
         return o1
 
+    def impl_surviving(self, kind, args, shards=16, env=None, timeout=3600):
+        """like impl, but a died process (Go fatal errors such as stack overflow or concurrent map writes cannot be
+        recovered) does not abort the run: the range is bisected and each case that kills the process on its own
+        answers ("crash" "<last lines of stderr>"); when a death does not reproduce on the halves (a race), the
+        whole range answers ("crash-unreproduced" ...) on its first case and is re-run for the others."""
+        lines = [kind + "\t" + a for a in args]
+        results = [None] * len(lines)
+        notes = self.notes
+
+        def tail(err):
+            keep = [l for l in err.splitlines() if l.startswith(("fatal error", "panic:", "runtime:", "WARNING: DATA RACE"))][:3]
+            return (" | ".join(keep) or err[-200:].replace("\n", " | "))[:300]
+
+        def run_range(lo, hi, depth=0):
+            if lo >= hi:
+                return
+            rc, out, err = run_side("implrun", lines[lo:hi], timeout=timeout, env=env)
+            if rc == 0 and len(out) == hi - lo:
+                results[lo:hi] = out
+                return
+            if hi - lo == 1:
+                results[lo] = sx([b"crash", tail(err).encode("ascii", "replace")])
+                return
+            mid = (lo + hi) // 2
+            run_range(lo, mid, depth + 1)
+            run_range(mid, hi, depth + 1)
+            if depth == 0 and not any(r is not None and r.startswith('("crash') for r in results[lo:hi]):
+                results[lo] = sx([b"crash-unreproduced", tail(err).encode("ascii", "replace")])
+                notes.append("a process death did not reproduce on the halves of its range: " + tail(err))
+        import concurrent.futures
+        k = max(1, (len(lines) + shards - 1) // shards)
+        rngs = [(i, min(i + k, len(lines))) for i in range(0, len(lines), k)]
+        with concurrent.futures.ThreadPoolExecutor(max(1, len(rngs))) as ex:
+            list(ex.map(lambda r: run_range(*r), rngs))
+        self.evaluations += len(lines)
+        return results
+
     def model(self, kind, args, shards=16):
         lines = [kind + "\t" + a for a in args]
         rc2, o2, e2 = run_sharded("modelrun", lines, shards)
